@@ -543,9 +543,18 @@ type FuncSpec struct {
 	Decr     *Clause
 	Loops    map[int]*LoopSpec
 	AllInv   []*Clause // invariants of every loop of the function ("invariant-all")
+	Asserts  []*AssertSpec // "after <callee>[#k]: assert ...": proof steps (checked, then available to what follows)
 	Pure     bool
 	Trusted  bool // contract assumed, body not verified (listed in evidence)
 	File     string
+}
+
+// AssertSpec: an assertion at the statement that holds the k-th call (0-based, in program order) of a callee named by
+// its function or method name.
+type AssertSpec struct {
+	Callee string
+	Ord    int
+	Clause *Clause
 }
 
 type Pred struct {
@@ -581,7 +590,7 @@ type Axiom struct {
 }
 
 var clauseKeywords = map[string]bool{"func": true, "pred": true, "returns": true, "requires": true, "ensures": true,
-	"invariant": true, "decreases": true, "modifies": true, "loop": true, "pure": true, "trusted": true, "end": true, "regexp": true, "ghost": true, "axiom": true, "opaque-axiom": true, "reveals": true, "lemma": true, "functype": true, "invariant-all": true}
+	"invariant": true, "decreases": true, "modifies": true, "loop": true, "pure": true, "trusted": true, "end": true, "regexp": true, "ghost": true, "axiom": true, "opaque-axiom": true, "reveals": true, "lemma": true, "functype": true, "invariant-all": true, "after": true}
 
 // collectContractLines extracts the "//@" lines of a file, joining continuation lines.
 func collectContractLines(f *ast.File) []string {
@@ -785,6 +794,23 @@ func parsePkgSpec(pkgName string, files []*ast.File, fileNames []string) (*PkgSp
 						cur.Modifies = append(cur.Modifies, m)
 					}
 				}
+			case kw == "after":
+				// after <callee>[#k]: assert [label] {tags} expr
+				i := strings.Index(rest, ":")
+				if i < 0 || !strings.HasPrefix(strings.TrimSpace(rest[i+1:]), "assert") {
+					return nil, fmt.Errorf("%s: %s: expected 'after <callee>[#k]: assert ...'", fileNames[fi], cur.Key)
+				}
+				callee, ord := strings.TrimSpace(rest[:i]), 0
+				if j := strings.Index(callee, "#"); j >= 0 {
+					ord, _ = strconv.Atoi(callee[j+1:])
+					callee = callee[:j]
+				}
+				label, tags, es := parseLabelTags(strings.TrimSpace(strings.TrimPrefix(strings.TrimSpace(rest[i+1:]), "assert")))
+				e, err := parseCExpr(es)
+				if err != nil {
+					return nil, fmt.Errorf("%s: %s assert: %v", fileNames[fi], cur.Key, err)
+				}
+				cur.Asserts = append(cur.Asserts, &AssertSpec{Callee: callee, Ord: ord, Clause: &Clause{Kind: "assert", Label: label, Tags: tags, Expr: e, Src: es}})
 			case kw == "invariant-all":
 				label, tags, es := parseLabelTags(rest)
 				e, err := parseCExpr(es)
